@@ -155,8 +155,7 @@ def get_finite_difference_matrix(
             assert "neumann" in bc[iS] or "dirichlet" in bc[iS], f"unknown BC type : {bc[iS]}"
 
             # -- boundary condition parameters
-            bc_params[iS] = {**bc_params_defaults, **bc_params[iS]}
-            par = bc_params[iS].copy()
+            par = {**bc_params_defaults, **bc_params[iS]}
 
             # -- extract parameters and raise an error if additionals
             val = par.pop('val')
